@@ -173,7 +173,19 @@ func c16Workload(g *rand.Rand, port int, dur time.Duration) int {
 			return [][]string{{"SELECT", db}, a}
 		}
 	}
-	fns := []func(c *Conn, r *rand.Rand) [][]string{mirror("5"), mirror("6"), mirror("7"), data, data, data, intro, intro, sel, tx, tx, blocker, blocker, feeder, flusher, selmany, xwatch, sel, blocker2, blocker2, pairW, pairR, pairR, pairW}
+	// two connections in different databases that issue the same number of commands per round, so that the
+	// per-database command numbers stay close and cross again and again (lock ownership is recognised by id), one
+	// of them sending its transaction into the other's database; a third connection works there unlocked-for
+	twinA := func(c *Conn, r *rand.Rand) [][]string {
+		return [][]string{{"SELECT", "9"}, {"MULTI"}, {"SELECT", "10"}, {"INCR", "kx"}, {"RPUSH", "kxl", "a"}, {"LPOP", "kxl"}, {"EXEC"}}
+	}
+	twinB := func(c *Conn, r *rand.Rand) [][]string {
+		return [][]string{{"SELECT", "10"}, {"MULTI"}, {"PING"}, {"INCR", "kx"}, {"RPUSH", "kxl", "b"}, {"LPOP", "kxl"}, {"EXEC"}}
+	}
+	twinC := func(c *Conn, r *rand.Rand) [][]string {
+		return [][]string{{"SELECT", "10"}, {"INCR", "kx"}, {"SET", fmt.Sprintf("kx%d", r.Intn(50)), "v"}, {"LLEN", "kxl"}, {"DEL", fmt.Sprintf("kx%d", r.Intn(50))}}
+	}
+	fns := []func(c *Conn, r *rand.Rand) [][]string{twinA, twinB, twinC, mirror("5"), mirror("6"), mirror("7"), data, data, data, intro, intro, sel, tx, tx, blocker, blocker, feeder, flusher, selmany, xwatch, sel, blocker2, blocker2, pairW, pairR, pairR, pairW}
 	for i, f := range fns {
 		wg.Add(1)
 		go worker(i, f, i%3 == 0)
@@ -328,7 +340,7 @@ func runC16(cfg runCfg, res *Result) error {
 		sites = append(sites, s)
 	}
 	sort.Strings(sites)
-	res.Samples = append(res.Samples, fmt.Sprintf("24 concurrent connections for %v: the command mix at the same time in three further databases x data commands x introspection x SELECT (16 databases)/FLUSH x MULTI/EXEC (also with keys watched in another database) x blocking commands (in four databases) x writer/reader pairs on one key per type x reconnects, saver pass every 7 ms, a second emulator started and closed", dur))
+	res.Samples = append(res.Samples, fmt.Sprintf("27 concurrent connections for %v: the command mix at the same time in three further databases x data commands x introspection x SELECT (16 databases)/FLUSH x MULTI/EXEC (also with keys watched in another database) x blocking commands (in four databases) x writer/reader pairs on one key per type x reconnects, saver pass every 7 ms, a second emulator started and closed", dur))
 	for _, s := range sites {
 		m := &Mismatch{Index: -1, Op: "data race", Why: "the race detector reports unsynchronised accesses at " + s}
 		known := false
